@@ -83,6 +83,61 @@ func factsC18() {
 	// ---- buildBackendAuthExternal / buildHostAuthExternal: the guards
 	ba := methodDecl(back, "updater", "buildBackendAuthExternal")
 	addStrList("c18BackendAuthConds", c18Cmps(back, ba), "backend.go buildBackendAuthExternal: comparisons")
+	// what the builder writes on the path record: only through setAuthExternal, called on the record
+	// itself and under the guard (a re-run with a mapper that knows nothing about the path leaves it alone)
+	var baWrites []string
+	ast.Inspect(ba.Body, func(n ast.Node) bool {
+		switch x := n.(type) {
+		case *ast.CallExpr:
+			if s, ok := x.Fun.(*ast.SelectorExpr); ok && s.Sel.Name == "setAuthExternal" {
+				baWrites = append(baWrites, c18Src(back, x))
+			}
+		case *ast.AssignStmt:
+			for _, l := range x.Lhs {
+				if strings.Contains(c18Src(back, l), "AuthExternal") {
+					baWrites = append(baWrites, c18Src(back, x))
+				}
+			}
+		}
+		return true
+	})
+	addStrList("c18BackendAuthWrites", baWrites, "backend.go buildBackendAuthExternal: calls of setAuthExternal and assignments to <path>.AuthExternal, source order")
+
+	// ---- the gateway flow: ReadAnnotations runs on every visit of a route rule, with the services
+	// createBackend returned (nil for a backend that exists) and the path links of this visit
+	gwf := "pkg/converters/gateway/gateway.go"
+	cb := methodDecl(gwf, "converter", "createBackend")
+	var cbFirst []string
+	if len(cb.Body.List) > 0 {
+		if ifs, ok := cb.Body.List[0].(*ast.IfStmt); ok {
+			cbFirst = append(cbFirst, c18Src(gwf, ifs.Init), c18Src(gwf, ifs.Cond))
+			ast.Inspect(ifs.Body, func(n ast.Node) bool {
+				if r, ok := n.(*ast.ReturnStmt); ok {
+					cbFirst = append(cbFirst, c18Src(gwf, r))
+				}
+				return true
+			})
+		}
+	}
+	addStrList("c18GwCreateBackendFirst", cbFirst, "gateway.go createBackend: the first statement (a backend that exists is returned without its services)")
+	addStrList("c18GwReadAnnotationsArgs", callArgsText(gwf, methodDecl(gwf, "converter", "syncHTTPRouteGateway"), "ReadAnnotations"), "gateway.go syncHTTPRouteGateway: arguments of ReadAnnotations")
+	ingf := "pkg/converters/ingress/ingress.go"
+	addStrList("c18ReadAnnotationsCalls", c18Calls(ingf, methodDecl(ingf, "converter", "ReadAnnotations"), []string{"NewMapper", "AddAnnotations", "UpdateBackendConfig"}), "ingress.go ReadAnnotations: a fresh mapper, the annotations of the given services for the given links, UpdateBackendConfig")
+	var convOrder []string
+	for _, c := range methodCalls("pkg/converters/converters.go", "converters", "Sync") {
+		if c == "c.haproxy.Clear" || c == "gatewayConverter.Sync" || c == "ingressConverter.Sync" {
+			convOrder = append(convOrder, c)
+		}
+	}
+	addStrList("c18ConvertersSyncOrder", convOrder, "converters.go Sync: Clear, the gateway converter (once per API version), then the ingress converter")
+	var fullOrder []string
+	for _, c := range methodCalls(ingf, "converter", "syncFull") {
+		if c == "c.updater.UpdateGlobalConfig" || c == "c.syncIngress" || c == "c.fullSyncAnnotations" {
+			fullOrder = append(fullOrder, c)
+		}
+	}
+	addStrList("c18SyncFullOrder", fullOrder, "ingress.go syncFull: the globals (External, AuthProxy range) are set here, after the gateway converter ran")
+
 	hostf := "pkg/converters/ingress/annotations/host.go"
 	ha := methodDecl(hostf, "updater", "buildHostAuthExternal")
 	addStrList("c18HostAuthConds", c18Cmps(hostf, ha), "host.go buildHostAuthExternal: comparisons")
